@@ -395,10 +395,12 @@ def monitor(c, out):
         return ('C14:valid-op-raised', 'driver stopped early')
     if invalid:
         return None
-    # final state: the free lists are exactly the maximal gaps, and the four indexes agree
-    s = out['snap']
+    return final_check(out['snap'], sorted(list(live.values()) + list(limbo.values())), out.get('damage'))
+
+
+def final_check(s, held, damage=None):
+    """final state: the free lists are exactly the maximal gaps, and the four indexes agree"""
     g = gaps(s['arenas'], s['alloc'])
-    held = sorted(list(live.values()) + list(limbo.values()))
     if g is None or sorted(map(tuple, s['alloc'])) != sorted(map(tuple, held)):
         return ('C14:live-set-wrong', '_allocated_blocks %s, handed out and not freed %s' % (s['alloc'], held))
     free = sorted(tuple(b) for _, seq in s['l2s'] for b in seq)
@@ -409,9 +411,338 @@ def monitor(c, out):
        s['lengths'] != sorted({b[2] - b[1] for b in free}) or \
        any(b[2] - b[1] != ln for ln, seq in s['l2s'] for b in seq) or any(not seq for _, seq in s['l2s']):
         return ('C14:indexes-disagree', 'the four free-list indexes do not describe the same blocks: %s' % json.dumps(s))
-    if out.get('damage'):
-        return ('C14:byte-damage', 'bytes of live block changed: (op, malloc#) %s' % out['damage'][:5])
+    if damage:
+        return ('C14:byte-damage', 'bytes of live block changed: (op, malloc#) %s' % damage[:5])
     return None
+
+
+# --------------------------------------------------------------------- real threads under a forced schedule
+KINDS = dict(want='KWant', acq='KAcq', pop='KPop', drained='KDrained', body='KBody', rel='KRel',
+             try_ok='KTryOk', try_fail='KTryFail', append='KAppend')
+
+HEADER_CONC = '''From Coq Require Import ZArith List Bool.
+From BV Require Import Lib.Cases Model.Heap Model.HeapConc.
+Import ListNotations. Open Scope Z_scope.
+Definition check_case := HeapConc.check_conc_case.'''
+
+HEADER_FORK = '''From Coq Require Import ZArith List Bool.
+From BV Require Import Lib.Cases Model.Heap Model.HeapConc.
+Import ListNotations. Open Scope Z_scope.
+Definition check_case := HeapConc.check_fork_case.'''
+
+# P B C D E fill the start of the arena, C is freed: an isolated hole between live B and D
+LAYOUTS = [
+    dict(pg=4096, ops=[['m', 32], ['m', 8], ['m', 64], ['m', 8], ['m', 128], ['f', 2]], big=128, hole=64),
+    dict(pg=64, ops=[['m', 8], ['m', 8], ['m', 16], ['m', 8], ['m', 8], ['f', 2]], big=24, hole=16),
+]
+
+
+def conc_boundary_cases(kmax=50):
+    """three threads; thread 0 is interrupted after k pieces (k enumerated: before the lock, at every line
+    under the lock, after the release), then thread 1 runs as far as it can, then thread 2, then the rest:
+      A  T0 malloc(big: does not fit the hole)  T1 free(P) (queued when T0 holds the lock)   T2 malloc(8)
+      B  T0 free(D) (merges with the hole)      T1 free(P)                                   T2 malloc(hole)
+      C  T0 malloc(8) (splits the hole)         T1 free(B) (neighbour of the hole)           T2 malloc(16)
+      D  T0 malloc, malloc                      T1 free(P), free(D)                          T2 malloc(big)
+      E  T0 free(B)                             T1 free(D) (both neighbours of the hole)     T2 free(P)"""
+    out = []
+    for L in LAYOUTS:
+        base = dict(pg=L['pg'], size=L['pg'], ops=L['ops'])
+        fams = [
+            [[['m', L['big']]], [['f', 0]], [['m', 8]]],
+            [[['f', 3]], [['f', 0]], [['m', L['hole']]]],
+            [[['m', 8]], [['f', 1]], [['m', 16]]],
+            [[['m', 8], ['m', L['hole']]], [['f', 0], ['f', 3]], [['m', L['big']]]],
+            [[['f', 1]], [['f', 3]], [['f', 0]]],
+        ]
+        for progs in fams:
+            for k in range(0, kmax, 1 if L['pg'] == 4096 else 2):
+                out.append(dict(base, conc=dict(progs=progs, sched=[[0, k], [1, 99], [2, 99], [0, 99]])))
+                if k % 4 == 1:     # the third thread first
+                    out.append(dict(base, conc=dict(progs=progs, sched=[[0, k], [2, 99], [1, 99], [0, 99]])))
+    return out
+
+
+def gen_conc_random(rng, n):
+    out = []
+    for _ in range(n):
+        pg = rng.choice([4096, 64, 64])
+        nm = rng.randint(3, 9)
+        ops = [['m', rng.choice([8, 8, 16, 24, 1, 9, 40])] for _ in range(nm)]
+        ks = list(range(nm))
+        rng.shuffle(ks)
+        nf = rng.randint(0, nm // 2)
+        for k in ks[:nf]:
+            ops.append([rng.choice(['f', 'f', 'd']), k])
+        rest = ks[nf:]
+        nt = rng.choice([2, 3, 3, 4])
+        progs = []
+        for t in range(nt):
+            pr = []
+            for _ in range(rng.randint(1, 3)):
+                if rest and rng.random() < 0.5:
+                    pr.append(['f', rest.pop()])
+                else:
+                    pr.append(['m', rng.choice([8, 8, 16, 24, 1, 9, 40, 64, pg])])
+            progs.append(pr)
+        sched = [[rng.randrange(nt), rng.choice([1, 1, 2, 3, 5, 8, 13, 21])] for _ in range(rng.randint(4, 40))]
+        out.append(dict(pg=pg, size=rng.choice([pg, pg, 1]), ops=ops, conc=dict(progs=progs, sched=sched)))
+    return out
+
+
+def prefix_live(c, got):
+    live = {}
+    nm = 0
+    for o in c['ops']:
+        if o[0] == 'm':
+            live[nm] = got[nm]
+            nm += 1
+        else:
+            live.pop(o[1], None)
+    queued = [got[o[1]] for o in c['ops'] if o[0] == 'd']
+    return live, queued
+
+
+def block_alarm(n, b, arenas, where):
+    if b[0] < 0 or b[0] >= len(arenas):
+        return ('C14:outside-arena', 'malloc(%d) returned %s, a block of an arena the heap does not list (arenas %s) %s'
+                % (n, b, arenas, where))
+    if b[1] % 8 or b[2] % 8:
+        return ('C14:misaligned', 'malloc(%d) returned %s %s' % (n, b, where))
+    if b[2] - b[1] < max(n, 1):
+        return ('C14:too-small', 'malloc(%d) returned %s %s' % (n, b, where))
+    if not (0 <= b[1] < b[2] <= arenas[b[0]]):
+        return ('C14:outside-arena', 'malloc(%d) returned %s, arenas %s %s' % (n, b, arenas, where))
+    return None
+
+
+def conc_monitor(c, out):
+    """the property on the trace of the real threads alone: no valid call raises or hangs; every block returned is
+    aligned, large enough, inside a listed arena and disjoint from every block that is live at that moment
+    (returned earlier, free() not yet called); the final state is an exact partition with coalesced free blocks,
+    consistent indexes, and _allocated_blocks = live blocks + blocks still queued"""
+    if out.get('setup_failed'):
+        return None
+    if out.get('stuck'):
+        return ('C14:valid-op-raised', 'threads under a forced schedule: Stuck -- every unfinished thread waits for '
+                                       'the heap lock (or a call did not return within 5 s); events %s' % out.get('events'))
+    for t, k, i, op, x in out['trace']:
+        if k == 'exc':
+            return ('C14:valid-op-raised', 'thread %d: %s of a %s raised %s' % (
+                t, 'malloc(%d)' % op[1] if op[0] == 'm' else 'free(block #%d)' % op[1],
+                'valid size' if op[0] == 'm' else 'live block', x))
+    s = out['snap']
+    if s is None:
+        return ('C14:outside-arena', 'the heap holds blocks of arenas it does not list: %s' % out.get('live_raw'))
+    live, queued0 = prefix_live(c, out['got'])
+    live = {('p', k): b for k, b in live.items()}
+    called = [tuple(b) for b in queued0]
+    for t, k, i, op, x in out['trace']:
+        if k == 'call' and op[0] == 'f':
+            b = live.pop(('p', op[1]), None)
+            if b is not None:
+                called.append(tuple(b))
+        elif k == 'ret' and op[0] == 'm':
+            where = '(thread %d)' % t
+            al = block_alarm(op[1], x, s['arenas'], where)
+            if al:
+                return al
+            for key, y in live.items():
+                if y[0] == x[0] and y[1] < x[2] and x[1] < y[2]:
+                    return ('C14:overlap', 'malloc(%d) in thread %d returned %s overlapping live block %s (%s)'
+                            % (op[1], t, x, y, 'malloc #%d of the prefix' % key[1] if key[0] == 'p'
+                               else 'returned to thread %d' % key[1]))
+            live[('t', t, i)] = x
+    pend = [tuple(b) for b in s['pending']]
+    if len(set(pend)) != len(pend) or any(b not in called for b in pend):
+        return ('C14:pending-list-wrong', 'pending list %s, blocks whose free() was called %s' % (pend, called))
+    return final_check(s, sorted([list(b) for b in live.values()] + [list(b) for b in pend]))
+
+
+def conc_to_coq(c, out):
+    s = out['snap']
+    snap = '(mk_snap %s %s %s %s %s %s %s %s)' % (
+        clist(s['lengths']),
+        clist(s['l2s'], lambda e: '(%s, %s)' % (cz(e[0]), clist(e[1], cblock))),
+        clist(s['s2b'], lambda e: '(%s, %s)' % (ckey(e[0]), cblock(e[1]))),
+        clist(s['e2b'], lambda e: '(%s, %s)' % (ckey(e[0]), cblock(e[1]))),
+        clist(s['alloc'], cblock), clist(s['arenas']), cz(s['nsize']), clist(s['pending'], cblock))
+    return snap
+
+
+def creq(o):
+    return '(QMalloc %s)' % cz(o[1]) if o[0] == 'm' else '(QFree %s)' % cnat(o[1])
+
+
+def conc_term(c, out):
+    return '((%s, %s, %s, %s, %s, %s, %s) : HeapConc.conc_case)' % (
+        cz(c['pg']), cz(c['size']), clist(c['ops'], cop),
+        clist(c['conc']['progs'], lambda pr: clist(pr, creq)),
+        clist(out['events'], lambda e: '(%s, %s)' % (cnat(e[0]), KINDS[e[1]])),
+        clist(out['log'], lambda e: '(%s, %s)' % (cnat(e[0]), cblock(e[1]))),
+        conc_to_coq(c, out))
+
+
+def judge_conc(res, cases, outs, tag='conc'):
+    terms, idx = [], []
+    alarmed = 0
+    for i, (c, o) in enumerate(zip(cases, outs)):
+        m = conc_monitor(c, o)
+        if m:
+            alarmed += 1
+            res.alarms.append(dict(signature=m[0], what='%s; case %s' % (m[1], json.dumps(c)[:700]),
+                                   replay=dict(case=c, impl={k: v for k, v in o.items() if k != 'live_raw'})))
+        elif o.get('snap') and not o.get('setup_failed'):
+            terms.append(conc_term(c, o))
+            idx.append(i)
+    if terms:
+        codes, _ = core.coq_eval('C14' + tag, HEADER_CONC, core.chunks(terms, 150))
+        for j, code in codes:
+            i = idx[j]
+            res.broken.append(dict(kind='correspondence', name='HeapConc model vs real threads on billiard.heap.Heap',
+                                   detail=json.dumps(dict(case=cases[i], events=outs[i]['events'], log=outs[i]['log'],
+                                                          snap=outs[i]['snap']))[:4000]))
+    return alarmed
+
+
+def correspond_conc(res, n_random, search=0, kmax=50):
+    rng = random.Random(res.seed * 4409 + 1415 + 104729 * search)
+    cases = (conc_boundary_cases(kmax) if not search else []) + gen_conc_random(rng, n_random)
+    outs = core.run_driver('heap_driver.py', cases)
+    judge_conc(res, cases, outs, 'conc%d' % search)
+    kinds = {}
+    blocked = 0
+    deferred = 0
+    drained_by_other = 0
+    for o in outs:
+        ev = o.get('events') or []
+        for t, k in ev:
+            kinds[k] = kinds.get(k, 0) + 1
+        deferred += sum(1 for t, k in ev if k == 'try_fail')
+        # a thread asked for the lock while another one held it
+        held = None
+        for t, k in ev:
+            if k in ('acq', 'try_ok'):
+                held = t
+            elif k == 'rel':
+                held = None
+            elif k == 'want' and held is not None and held != t:
+                blocked += 1
+        drained_by_other += sum(1 for t, k in ev if k == 'pop')
+    nontrivial = {json.dumps(c, sort_keys=True) for c, o in zip(cases, outs)
+                  if len({t for t, k in (o.get('events') or [])}) >= 2}
+    res.add_cov(evaluations=len(cases), distinct=len(nontrivial), traces=len(cases),
+                rule='real threads on one heap under forced schedules (every heap.py line and every wait for the lock is '
+                     'a scheduling point): 5 three-thread scenarios x 2 layouts with thread 0 interrupted after every '
+                     'k-th piece, plus random programs/schedules; non-trivial = at least two threads performed events',
+                thread_cases=len(cases), thread_event_histogram=kinds, thread_waits_for_held_lock=blocked,
+                thread_frees_that_found_the_lock_taken=deferred, thread_pending_blocks_drained=drained_by_other)
+    return cases, outs
+
+
+# --------------------------------------------------------------------- a forked child
+def fork_cases(rng, n):
+    out = []
+    fixed = [
+        (dict(pg=64, size=64, ops=[['m', 16], ['m', 16]]), [['m', 8], ['m', 100], ['f', 0], ['m', 8], ['p', 0]]),
+        (dict(pg=64, size=64, ops=[['m', 16], ['m', 16]]), [['p', 0]]),
+        (dict(pg=64, size=64, ops=[['m', 16], ['m', 16], ['d', 0]]), [['m', 16], ['m', 16], ['p', 1]]),
+        (dict(pg=4096, size=4096, ops=[['m', 5000], ['m', 8], ['f', 0]]), [['m', 0], ['f', 0], ['m', 4096]]),
+        (dict(pg=4096, size=1, ops=[]), [['m', 1]]),
+    ]
+    for base, child in fixed:
+        out.append(dict(base, fork=child))
+    for _ in range(n):
+        pg = rng.choice([4096, 64, 32])
+        ops, plive, nm = [], [], 0
+        for _ in range(rng.choice([0, 3, 8, 15])):
+            if plive and rng.random() < 0.4:
+                ops.append([rng.choice(['f', 'f', 'd']), plive.pop(rng.randrange(len(plive)))])
+            else:
+                ops.append(['m', size_choices(rng, pg)]); plive.append(nm); nm += 1
+        child, live, cm = [], [], 0
+        for _ in range(rng.randint(1, 10)):
+            r = rng.random()
+            if live and r < 0.35:
+                child.append(['f', live.pop(rng.randrange(len(live)))])
+            elif nm and r < 0.42:
+                child.append(['p', rng.randrange(nm)])
+            else:
+                child.append(['m', size_choices(rng, pg)]); live.append(cm); cm += 1
+        out.append(dict(pg=pg, size=rng.choice([pg, 1, 2 * pg]), ops=ops, fork=child))
+    return out
+
+
+def chop(o):
+    if o[0] == 'm':
+        return '(HMalloc %s)' % cz(o[1])
+    return ('(HFreeOwn %s)' if o[0] == 'f' else '(HFreeInherited %s)') % cnat(o[1])
+
+
+def fork_monitor(c, out):
+    """a forked child that allocates must get memory of its own: no arena of the parent in its heap, its blocks
+    well placed in its own arenas; a block of the parent cannot be freed there; the parent's heap is untouched"""
+    ch = out['child']
+    if ch.get('died') or ch.get('snap') is None:
+        return ('C14:valid-op-raised', 'forked child died or holds blocks of unknown arenas: %s' % json.dumps(ch)[:300])
+    did_malloc = False
+    for o, ob in zip(c['fork'], ch['obs']):
+        if o[0] == 'p' and not ob[0]:
+            return ('C14:child-freed-parent-block', 'free() of a block of the parent succeeded in the forked child '
+                                                    '(op %s): the block now sits in the child\'s free lists' % o)
+        if o[0] == 'm' and not ob[0]:
+            did_malloc = True
+            if ob[1][0] < 0:
+                return ('C14:child-uses-parent-arena', 'malloc(%d) in the forked child returned a block of an arena '
+                                                       'inherited from the parent: %s' % (o[1], ob[1]))
+    if did_malloc and ch.get('arenas_shared_with_parent'):
+        return ('C14:child-uses-parent-arena', 'after malloc in the forked child its heap still lists %d arena(s) of '
+                                               'the parent' % ch['arenas_shared_with_parent'])
+    if did_malloc:
+        # the child's own history, judged like any other
+        ops = [['f', 10 ** 6] if o[0] == 'p' else o for o in c['fork']]
+        m = monitor(dict(c, ops=ops), dict(obs=ch['obs'], snap=ch['snap']))
+        if m:
+            return (m[0], 'in the forked child: ' + m[1])
+    return None
+
+
+def fork_term(c, out):
+    ch = out['child']
+    obs = clist(ch['obs'], lambda o: '(%s, %s, %s, %s)' % (cbool(o[0]), cblock(o[1]), cz(o[2]), cz(o[3])))
+    return '((%s, %s, %s, %s, %s, %s, %s, %s) : HeapConc.fork_case)' % (
+        cz(c['pg']), cz(c['size']), cz(out['dsize']), clist(c['ops'], cop), clist(c['fork'], chop), obs,
+        conc_to_coq(c, ch), conc_to_coq(c, out))
+
+
+def correspond_fork(res, n):
+    rng = random.Random(res.seed * 2207 + 1416)
+    cases = fork_cases(rng, n)
+    outs = core.run_driver('heap_driver.py', cases)
+    terms, idx = [], []
+    for i, (c, o) in enumerate(zip(cases, outs)):
+        m = fork_monitor(c, o)
+        if m:
+            res.alarms.append(dict(signature=m[0], what='%s; case %s' % (m[1], json.dumps(c)[:600]),
+                                   replay=dict(case=c, impl=o)))
+        else:
+            terms.append(fork_term(c, o))
+            idx.append(i)
+    if terms:
+        codes, _ = core.coq_eval('C14fork', HEADER_FORK, core.chunks(terms, 150))
+        for j, code in codes:
+            i = idx[j]
+            res.broken.append(dict(kind='correspondence', name='fork model vs billiard.heap.Heap in a forked child',
+                                   detail=json.dumps(dict(case=cases[i], impl=outs[i]))[:4000]))
+    res.add_cov(evaluations=len(cases), traces=len(cases), fork_cases=len(cases),
+                distinct=len({json.dumps(c, sort_keys=True) for c, o in zip(cases, outs)
+                              if any(not ob[0] for ob in o['child']['obs'])}),
+                fork_child_mallocs=sum(1 for c, o in zip(cases, outs) for op, ob in zip(c['fork'], o['child']['obs'])
+                                       if op[0] == 'm' and not ob[0]),
+                fork_child_refused_frees=sum(1 for c, o in zip(cases, outs) for op, ob in zip(c['fork'], o['child']['obs'])
+                                             if op[0] != 'm' and ob[0]),
+                rule='real os.fork(): the child uses the inherited heap object (malloc re-initialises it; free of an '
+                     'inherited block must raise), child and parent states compared with the model')
 
 
 def nested_text(kind, victim, ax):
@@ -639,6 +970,10 @@ def run(res):
     else:
         n, lc, lo, nn = 6000, 30, 2000, 4000
     correspond(res, n, lc, lo, nn)
+    correspond_conc(res, 120 if res.tier == 'quick' else 4000)
+    correspond_fork(res, 8 if res.tier == 'quick' else 300)
+    if res.broken and not res.alarms and res.tier == 'quick':
+        correspond_conc(res, 1500, search=1)
     if res.broken and not res.alarms and res.tier == 'quick':
         # failing-input search: a proof, the translation or the correspondence is broken but no history on
         # which the property itself fails has been found yet -- look harder
